@@ -41,6 +41,12 @@ def context(server, minv, maxv, cipher_id=None, cert=None, key=None,
     if verify_client_ca:
         ctx.verify_mode = ssl.CERT_OPTIONAL
         ctx.load_verify_locations(os.path.join(TESTS, verify_client_ca))
+        try:
+            # several test certificates are past their notAfter date:
+            # X509_V_FLAG_NO_CHECK_TIME
+            ctx.verify_flags |= 0x200000
+        except Exception:   # noqa
+            pass
     if curve:
         ctx.set_ecdh_curve(curve)
     if not tickets:
